@@ -518,23 +518,43 @@ def r10_str_eq(F, R):
     rows = D.Deep(F, b, max_paths=200, unroll=2).run()
     if not rows:
         raise Unverifiable("str_eq: empty table")
-    is_len = lambda t, k: isinstance(t, tuple) and t and ((t[0] == "call" and re.search(r"::len$", t[1])) or (t[0] == "un" and "Metadata" in str(t[1]))) and D.mentions(t, lambda y: y == ("arg", k))
+    is_len = lambda t, k: isinstance(t, tuple) and t and ((t[0] == "call" and re.search(r"::len$", t[1])) or t[0] == "len" or (t[0] == "un" and "Metadata" in str(t[1]))) and D.mentions(t, lambda y: y == ("arg", k))
     def len_eq(a, o):
         return a[0] == "bin" and ((a[1] == "Eq" and o is True) or (a[1] == "Ne" and o is False)) and ((is_len(a[2], 1) and is_len(a[3], 2)) or (is_len(a[2], 2) and is_len(a[3], 1)))
     def byte_cmp(a):
         return a[0] == "bin" and a[1] in ("Eq", "Ne") and all(isinstance(x, tuple) and x and x[0] == "index" for x in (a[2], a[3])) and \
             {1, 2} <= {k for x in (a[2], a[3]) for k in (1, 2) if D.mentions(x, lambda y, k=k: y == ("arg", k))}
     n_true = n_mis = 0
+    if not any(byte_cmp(a) for p in rows for a, _ in p.conds):
+        # another algorithm than "compare the bytes at a common index" (e.g. chopping equal heads off both slices with slice patterns): the
+        # clauses below are stated for the index form only; nothing is claimed here rather than guessing
+        R.ok("str-eq/form", b, "not the index-loop form: the length / mismatch clauses are not decided for this spelling")
+        R.floor(1)
+        return
     for p in rows:
         conds = " ∧ ".join(f"{D.fmt(b, a)[:40]}={o}" for a, o in p.conds[:4]) or "always"
         mism = any(byte_cmp(a) and ((a[1] == "Eq" and o is False) or (a[1] == "Ne" and o is True)) for a, o in p.conds)
         if mism and not p.cut:
             n_mis += 1
             R.check(p.ret == ("const", False), "str-eq/mismatch-is-false", b, "a differing byte => false", f"[{conds}] str_eq does not answer `false` after finding a differing byte")
-        if p.cut or p.ret == ("const", False):
+        if p.cut or p.ret == ("const", False) or (isinstance(p.ret, tuple) and p.ret and p.ret[0] in ("loop", "pruned", "reached")):
             continue
         n_true += 1
-        both = any(len_eq(a, o) for a, o in p.conds) or (any(is_len(x, 1) for x in D.subterms(p.ret)) and any(is_len(x, 2) for x in D.subterms(p.ret)))
+        # what the row knows about the two lengths: they were compared; or the answer depends on both; or both are pinned the same way (the
+        # constraints on the one, with the parameters exchanged, are the constraints on the other: `([], []) => true`)
+        def swap(t):
+            if t == ("arg", 1):
+                return ("arg", 2)
+            if t == ("arg", 2):
+                return ("arg", 1)
+            if isinstance(t, tuple) and len(t) == 4 and t[0] == "call":
+                return ("call", t[1], tuple(swap(x) for x in t[2]), 0)
+            return tuple(swap(x) if isinstance(x, tuple) else x for x in t) if isinstance(t, tuple) else t
+        strip_id = lambda t: swap(swap(t))
+        lc1 = {(strip_id(a), o) for a, o in p.conds if a[0] == "bin" and any(is_len(x, 1) for x in (a[2], a[3])) and not any(is_len(x, 2) for x in (a[2], a[3]))}
+        lc2 = {(strip_id(a), o) for a, o in p.conds if a[0] == "bin" and any(is_len(x, 2) for x in (a[2], a[3])) and not any(is_len(x, 1) for x in (a[2], a[3]))}
+        symmetric = bool(lc1) and {(swap(a), o) for a, o in lc1} == lc2 and any(a[1] == "Eq" and o is True for a, o in lc1)
+        both = any(len_eq(a, o) for a, o in p.conds) or (any(is_len(x, 1) for x in D.subterms(p.ret)) and any(is_len(x, 2) for x in D.subterms(p.ret))) or symmetric
         R.check(both, "str-eq/true-needs-equal-lengths", b, "`true` only with equal lengths",
                 f"[{conds}] str_eq can answer `true` ({D.fmt(b, p.ret)[:40]}) without the two lengths having been compared: a parameter name that is a proper prefix of "
                 f"(or has as prefix) the argument type's NAME passes the compile-time guard and the step silently never matches")
